@@ -522,3 +522,148 @@ def generate(rng: random.Random, nblocks=None):
 
 def all_kinds():
   return [n for n, _ in EGen.BLOCKS]
+
+
+# ---------------------------------------------------------------------------
+# Programs built to stress output ordering (C04): many names, unions of >= 4
+# members, multiple inheritance, **kwargs, mixed dict/set literals, several
+# errors on one line whose order is decided by binding iteration.
+
+_SYLL = ["ba", "ko", "zu", "mi", "ra", "te", "lo", "qi", "vu", "ne", "sa", "dy", "xo", "fe", "gu", "pa"]
+_VALUES = ["1", "'s'", "2.5", "None", "b'x'", "[1]", "(1, 's')", "{'k': 1}", "{1, 2}", "True", "3j",
+           "[None]", "('a',)", "{'a': 's'}", "frozenset([1])", "range(3)"]
+
+
+class OGen:
+  def __init__(self, rng):
+    self.r = rng
+    self.used = set()
+    self.lines = []
+
+  def name(self, cap=False):
+    while True:
+      n = "".join(self.r.choice(_SYLL) for _ in range(self.r.choice([2, 2, 3])))
+      if self.r.random() < 0.3:
+        n += str(self.r.randrange(10))
+      if cap:
+        n = n.capitalize()
+      if n not in self.used and n not in ("None", "True"):
+        self.used.add(n)
+        return n
+
+  def values(self, k):
+    return self.r.sample(_VALUES, k)
+
+  def emit(self, *ls):
+    self.lines.extend(ls)
+
+  def union_func(self):
+    f = self.name()
+    vals = self.values(self.r.randint(4, 7))
+    self.emit(f"def {f}(x, *args, **kwargs):")
+    for i, v in enumerate(vals[:-1]):
+      self.emit(f"  {'if' if i == 0 else 'elif'} x == {i}:", f"    return {v}")
+    self.emit(f"  return {vals[-1]}")
+    return f
+
+  def klass(self, bases_pool):
+    c = self.name(cap=True)
+    nb = self.r.choice([0, 1, 1, 2, 2, 3])
+    bases = []
+    if bases_pool and nb:
+      # keep a consistent linearisation: bases in pool order
+      pick = sorted(self.r.sample(range(len(bases_pool)), min(nb, len(bases_pool))), reverse=True)
+      bases = [bases_pool[i] for i in pick]
+    self.emit(f"class {c}({', '.join(bases)}):" if bases else f"class {c}:")
+    for _ in range(self.r.randint(1, 4)):
+      self.emit(f"  {self.name()} = {self.r.choice(_VALUES)}")
+    attrs = [self.name() for _ in range(self.r.randint(1, 3))]
+    self.emit("  def __init__(self, *a, **kw):")
+    if bases:
+      self.emit("    super().__init__(*a, **kw)")
+    for a in attrs:
+      self.emit(f"    self.{a} = {self.r.choice(_VALUES)}")
+    for _ in range(self.r.randint(1, 3)):
+      m = self.name()
+      a = self.r.choice(attrs)
+      vals = self.values(self.r.randint(2, 4))
+      self.emit(f"  def {m}(self, p=None, **kw):")
+      for i, v in enumerate(vals[:-1]):
+        self.emit(f"    if p == {i}:", f"      self.{a} = {v}", f"      return {self.r.choice(_VALUES)}")
+      self.emit(f"    self.{a} = {vals[-1]}", f"    return self.{a}")
+    if self.r.random() < 0.4:
+      self.emit("  @property", f"  def {self.name()}(self):", f"    return (self.{attrs[0]}, {self.r.choice(_VALUES)})")
+    if self.r.random() < 0.3:
+      inner = self.name(cap=True)
+      self.emit(f"  class {inner}:", f"    {self.name()} = {self.r.choice(_VALUES)}")
+    return c
+
+  def program(self):
+    r = self.r
+    self.emit("import collections", "import enum",
+              "from typing import Any, Dict, Generic, List, NamedTuple, Optional, Set, Tuple, TypeVar, Union", "")
+    self.emit("T = TypeVar('T')", "S = TypeVar('S')")
+    funcs = [self.union_func() for _ in range(r.randint(2, 3))]
+    classes = []
+    for _ in range(r.randint(3, 6)):
+      classes.append(self.klass(classes))
+    # generic / namedtuple / enum flavours
+    nt = self.name(cap=True)
+    self.emit(f"{nt} = collections.namedtuple('{nt}', ['{self.name()}', '{self.name()}'])")
+    en = self.name(cap=True)
+    self.emit(f"class {en}(enum.Enum):")
+    for i in range(r.randint(2, 5)):
+      self.emit(f"  {self.name().upper()} = {r.choice(['1', repr('s'), '2.0', '(1, 2)'])}")
+    g = self.name(cap=True)
+    self.emit(f"class {g}(Generic[T, S]):", "  def __init__(self, a: T, b: S):", "    self.a = a", "    self.b = b",
+              "  def swap(self):", f"    return {g}(self.b, self.a)")
+    # identity-like functions (TypeVar numbering in the stub)
+    for _ in range(r.randint(2, 4)):
+      f = self.name()
+      self.emit(f"def {f}(a, b=0, c=None, *rest, **opts):",
+                f"  return {r.choice(['a', 'b', '(a, b)', '[b, a]', '{1: a, 2: b}', 'c or a', 'opts'])}")
+      funcs.append(f)
+    # module-level state with set-valued intermediate results
+    for _ in range(r.randint(5, 10)):
+      v = self.name()
+      k = r.randrange(9)
+      if k == 0:
+        self.emit(f"{v} = {{{', '.join(self.values(r.randint(3, 6)))}}}".replace("[1]", "1").replace("[None]", "0")
+                  .replace("{'k': 1}", "'k'").replace("{1, 2}", "12").replace("{'a': 's'}", "'a'"))
+      elif k == 1:
+        vs = self.values(r.randint(3, 6))
+        keys = r.sample(["1", "'a'", "2.0", "None", "(1,)", "b'k'", "True"], len(vs))
+        self.emit(f"{v} = {{{', '.join(f'{a}: {b}' for a, b in zip(keys, vs))}}}")
+      elif k == 2:
+        self.emit(f"{v} = [{', '.join(f'{r.choice(funcs)}({i})' for i in range(r.randint(2, 5)))}]")
+      elif k == 3:
+        c = r.choice(classes)
+        self.emit(f"{v} = {c}()", f"{self.name()} = {v}.{'__init__'}")
+      elif k == 4:
+        self.emit(f"{v} = {r.choice(funcs)}({r.choice(funcs)}(0), k={r.choice(_VALUES)}, **{{'z': {r.choice(_VALUES)}}})")
+      elif k == 5:
+        cs = r.sample(classes, min(len(classes), r.randint(2, 4)))
+        self.emit(f"{v} = [{', '.join(c + '()' for c in cs)}]", f"{self.name()} = {v}[0]")
+      elif k == 6:
+        f = r.choice(funcs)
+        self.emit(f"{v} = {f}(1) if {f}(2) else {f}(3)")
+      elif k == 7:
+        # several errors on one line, order decided by binding iteration
+        f = r.choice(funcs)
+        self.emit(f"{v} = {f}(0).{self.name()}")
+      else:
+        f = r.choice(funcs)
+        self.emit(f"{v} = {g}({f}(1), {f}(2)).swap()")
+    # a function whose parameter is used with a union receiver -> per-member errors
+    f = r.choice(funcs)
+    self.emit(f"def {self.name()}(q: Union[int, str, bytes, List[int], None], w: Optional[Dict[str, Set[int]]] = None):",
+              f"  return q.{self.name()}, len(q), q + 1, w.keys()")
+    return "\n".join(self.lines) + "\n"
+
+
+def generate_ordering(rng: random.Random) -> str:
+  for _ in range(20):
+    src = OGen(rng).program()
+    if _compiles(src):
+      return src
+  return "x = {1, 's', 2.0, None}\n"
